@@ -82,6 +82,42 @@ def attribute_part(out):
                           dict(kind='solver', model=mdl, schema=schema, query=query, payload=payload))
         else:
             out.inconc(f'solver counterexample {c["what"]} {mdl} did not reproduce natively')
+    # the Option / Vec nesting of a variable decides which assignments are expressible at all: the nesting kernel runs here
+    # too, its counterexamples replayed as variable assignments with null at every nullable level
+    for c in sorted(K.k_decorate_type(R, 4 if tier == 'quick' else 6), key=lambda c: len(c['qualifiers'])):
+        ql = c['qualifiers']
+        if any(a == 'R' and b == 'R' for a, b in zip(ql, ql[1:])):
+            continue
+        expr = K.graphql_type_expr(ql, 'Int')
+        schema, query = f'type Query {{ x(a: {expr}): Int }}\n', f'query Q($v: {expr}) {{ x(a: $v) }}\n'
+        err = C.build(schema, query, 'Q', 'q')
+        replayed += 1
+        if err:
+            out.inconc(f'nesting counterexample {expr} could not be replayed: ' + err[-200:].replace('\n', ' | '))
+            break
+
+        def values(qs):
+            # every assignment that puts null at exactly one nullable level (or nowhere), lists of length 1
+            if not qs:
+                return [7, None]
+            if qs[0] == 'R':
+                return [v for v in values(qs[1:]) if v is not None] if len(qs) > 1 else [7]
+            inner = values(qs[1:]) if len(qs) > 1 else [7, None]
+            return [[v] for v in inner] + [None]
+        vals = values(ql) if ql else [7, None]
+        if ql and ql[0] == 'L':
+            pass
+        payloads = [{'v': v} for v in vals]
+        res = C.run('variables', payloads)
+        bad = [(p_, r_) for p_, r_ in zip(payloads, res) if r_[0] != 'ok' or r_[1].get('variables') != p_]
+        if bad:
+            p_, r_ = bad[0]
+            out.violation('nesting:variable', f'variable `$v: {expr}`: the valid assignment {json.dumps(p_)} ' +
+                          (f'is not expressible: {r_[1]}' if r_[0] != 'ok' else f'serializes as {json.dumps(r_[1].get("variables"))}'),
+                          dict(kind='nesting', qualifiers=ql, schema=schema, query=query, payload=p_))
+        else:
+            out.inconc(f'nesting counterexample for {expr} did not reproduce as a variable assignment')
+        break
     for w in R.inconclusive:
         out.inconc(w)
     ev = R.evidence()
@@ -110,6 +146,11 @@ def replay(path):
     def other(p):
         import consumer
         C = consumer.Consumer(vc.scratch(PROP + 'r'))
+        if p.get('kind') == 'nesting':
+            err = C.build(p['schema'], p['query'], 'Q', 'q')
+            res = C.run('variables', [p['payload']]) if not err else [('err', err[-200:])]
+            print(json.dumps(res)[:400])
+            return 0 if (res and res[0][0] == 'ok' and res[0][1].get('variables') == p['payload']) else 1
         if p.get('kind') == 'wire-name':
             import C11
             ok, desc, _, _ = C11.confirm(C, p['site'], p['name'])
